@@ -4,7 +4,7 @@ import os
 import subprocess
 import sys
 
-from . import extract, smt, symex, builtins_spec, stdlib_spec
+from . import extract, smt, symex, builtins_spec, stdlib_spec, buffer_spec
 
 HERE = os.path.dirname(os.path.abspath(__file__))
 VENV_PY = os.environ.get("PYVC_PYTHON", "/venv/bin/python")
